@@ -257,8 +257,10 @@ class HistogramDensityMethod(BatchDetector):
             self.reset()
 
         X, _, _ = super()._validate_input(X, None, None)
+        # labelled like the reference, so that appending it aligns column by
+        # column even when names were first supplied after array inputs
         X = pd.DataFrame(
-            X, columns=self._input_cols
+            X, columns=self.reference.columns
         )  # TODO: subsequent operations expect dataframes, not numpy arrays
 
         super().update(X, None, None)
